@@ -149,6 +149,9 @@ func streamC04(c *Ctx) {
 		if !bigBatchNoTrace(c, be) {
 			return
 		}
+		if !bigFailingImports(c, be) {
+			return
+		}
 	}
 	// a broken correspondence does not end the run: the search goes on with the property's own oracle
 	// (error reported, content unchanged, handle usable) on the implementation alone
@@ -255,7 +258,10 @@ func streamC04(c *Ctx) {
 					if !er.Fired {
 						// fault-free run: the traces must agree call by call
 						c.ImplTraces++
-						if !oracleOnly && strings.Join(er.Trace, " ") != kv["trace"] {
+						// (the key of a cursor read is masked: the entry at which a prefix scan stops - the first one past the
+						// prefix - depends on whether the backend's cursor sees the transaction's own writes, which for bbolt
+						// depends on the page layout; every get/set/delete key and the order of all calls are compared exactly)
+						if !oracleOnly && itemKeyRe.ReplaceAllString(strings.Join(er.Trace, " "), "item:*") != itemKeyRe.ReplaceAllString(kv["trace"], "item:*") {
 							pending = &Replay{Backend: be, Stream: "fault", Case: toIfaces(caseLines), Expected: []string{kv["trace"]}, Actual: []string{strings.Join(er.Trace, " ")},
 								Note: "fault-free store-call traces differ"}
 							pendingName = "correspondence K-C04/trace"
